@@ -51,10 +51,16 @@ def scripts(d):
         "big-abort": ["EPSV", "@data", f"STOR /{d}/part", "@dsend " + d * (BIG // 2), "ABOR", "PWD"],
         "big-abort-retr": ["EPSV", "@data", f"RETR /{d}/bigf", "ABOR", "PWD"],
         "big-cut": ["EPSV", "@data", f"RETR /{d}/bigf", "@drop"],
+        # sessions of the limited user that die in awkward ways: the control connection goes away while the data peer
+        # stays connected without reading / while an upload is half-way / right after PASV
+        "die-noread": ["USER bob", "PASS pw", "EPSV", "@data", "@dstop", f"RETR /{d}/bigf", "@cdrop"],
+        "die-mid-stor": ["USER bob", "PASS pw", "EPSV", "@data", f"STOR /{d}/part", "@dsend xxxx", "@cdrop"],
+        "die-after-pasv": ["USER bob", "PASS pw", "PASV", "@cdrop"],
+        "die-list-noread": ["USER bob", "PASS pw", "PASV", "@data", "@dstop", f"LIST /{d}", "@cdrop"],
     }
 
 
-NAMES = [n for n in scripts("a") if not n.startswith("big-")]
+NAMES = [n for n in scripts("a") if not n.startswith(("big-", "die-"))]
 
 
 def norm(transcript):
@@ -77,9 +83,11 @@ def run_pair(case, chooser):
     sa, sb = scripts("a")[case["a"]], scripts("b")[case["b"]]
     solo = case.get("solo")     # 'a' / 'b' / None
     def users(a, base):
-        return [a.User(base_path=base), a.User("bob", "pw", base_path=base, maximum_connections=2)]
+        return [a.User(base_path=base), a.User("bob", "pw", base_path=base, maximum_connections=case.get("bob_limit", 2))]
 
     skw = {"block_size": B, "wait_future_timeout": 1}
+    if case.get("server_limit"):
+        skw["maximum_connections"] = case["server_limit"]
     if case.get("throttle"):
         # a server-wide limit shared by both sessions (virtual time: costs nothing); events are then fired with a frozen
         # clock so that both sessions' transfers really wait on the shared throttle at the same time
@@ -90,10 +98,12 @@ def run_pair(case, chooser):
     try:
         w = rig.world
         chooser.active = False
+        connected = [False, False]
         for i in range(2):
-            if solo is None or solo == "ab"[i]:
+            if (solo is None or solo == "ab"[i]) and not (case.get("b_connects_late") and i == 1):
                 rig.ev(i, "@connect")
                 rig.ev(i, "USER anonymous")
+                connected[i] = True
         chooser.active = case.get("explore", False)
         ia = ib = 0
         order = case["order"]
@@ -104,6 +114,11 @@ def run_pair(case, chooser):
                 e, ib = sb[ib], ib + 1
             if solo is not None and solo != "ab"[who]:
                 continue
+            if not connected[who]:
+                # this session appears only now (after the other one has gone)
+                rig.ev(who, "@connect")
+                rig.ev(who, "USER anonymous")
+                connected[who] = True
             # fired: the two sessions act in the same instant (A's event is not settled before B's)
             if case.get("fire") and who == 0 and n + 1 < len(order) and order[n + 1] == 1:
                 e += "!"
@@ -202,7 +217,26 @@ def _work(item):
     solo_a = run_pair({**base, "order": seq, "solo": "a"}, Chooser())
     solo_b = run_pair({**base, "order": seq, "solo": "b"}, Chooser())
     try:
-        if mode == "interleave":
+        if mode == "after":
+            # session A dies; *afterwards* session B must find everything as if A had never existed (limits of 1)
+            case = {**base, "order": seq, "explore": True}
+            bound, kinds = extra.get("bound", 1), ["early", "order"]
+            for ch, res in explore(lambda c: run_pair(case, c), bound, kinds=kinds, max_exec=extra.get("cap", 1500)):
+                if ch is None:
+                    part.caps.append({"pair": [na, nb], "cap": extra.get("cap", 1500)})
+                    break
+                part.evaluations += 1
+                part.traces += 1
+                part.transitions += res["events"]
+                part.states.add(res["trace"])
+                part.nontrivial.add(res["trace"])
+                part.counters[f"after_dev{ch.deviations}"] += 1
+                for p in compare(res, solo_a, solo_b, True, only="b"):
+                    part.violation({"kind": p["kind"], "pair": [na, nb], "after_death": True},
+                                   {"problem": p, "choices": ch.choices},
+                                   replay={"case": case, "choices": ch.choices, "kinds": kinds})
+                    break
+        elif mode == "interleave":
             for o in orders(la, lb):
                 case = {**base, "order": o}
                 res = run_pair(case, Chooser())
@@ -268,6 +302,12 @@ def build_items(tier):
         fired = pairs
     for na, nb in fired:
         items.append(("fired", na, nb, {"bound": 1, "cap": 1500 if tier == "quick" else 20000}))
+    # a session of a user with a connection limit of 1 dies in an awkward way; the next session of that user (and of
+    # the server: limit 2 = this one plus the dead one) must behave exactly as if alone
+    for na in ("die-noread", "die-mid-stor", "die-after-pasv", "die-list-noread"):
+        for nb in ("login-bob", "retry-login", "upload"):
+            items.append(("after", na, nb, {"bound": 1, "cap": 3000, "bob_limit": 1, "server_limit": 1, "window": 1,
+                                            "b_connects_late": True}))
     # the same under a speed limit shared by the two sessions: one session aborts / is cut / quits while the other's
     # transfer is waiting on the shared throttle
     for na in ("big-abort", "big-abort-retr", "big-cut", "big-upload"):
